@@ -1816,6 +1816,45 @@ func (e *env) corpus() error {
 		staleThenFresh(sc, w0.DL, v.tag+":after-withdraw")
 	}
 
+	// (k) self-delegatable, half-way through the schedule, stake made of BOTH locked and free coins
+	// (one self-delegation larger than what is still locked, or a locked one followed by a free
+	// one), all of it unbonded and withdrawn in ONE message whose amount exceeds DelegatedLocking -
+	// and, as the control, in two messages: the withdrawal must reduce DelegatedFree first and
+	// DelegatedLocking by the rest, after which exactly the unlocked part is spendable (seeded C12-r8)
+	for _, v := range []struct {
+		tag    string
+		first  int64
+		second int64
+		parts  []int64
+	}{{"corpus:k-sd-mixed-one-withdrawal", 800_000, 0, []int64{800_000}},
+		{"corpus:k-sd-locked-then-free", 450_000, 300_000, []int64{750_000}},
+		{"corpus:k-sd-mixed-two-withdrawals", 800_000, 0, []int64{300_000, 500_000}},
+		{"corpus:k-sd-mixed-partial", 800_000, 0, []int64{650_000}}} {
+		sc := e.initCase(true, e.now().Add(-200*day), e.now().Add(200*day), false, false, []coin{{dFEE, big.NewInt(1_000_000)}}, v.tag)
+		if sc == nil {
+			return fmt.Errorf("%s: init failed", v.tag)
+		}
+		es, ms = own(sc)
+		sc.doExec(opDesc{Kind: "SelfDelegate", ES: es, MS: ms, Amt: big.NewInt(v.first)}, v.tag+":self-delegate")
+		total := v.first
+		if v.second > 0 {
+			if err := sc.doBlock(e.safeTime(e.now().Add(40*day)), v.tag); err != nil {
+				return err
+			}
+			sc.doExec(opDesc{Kind: "SelfDelegate", ES: es, MS: ms, Amt: big.NewInt(v.second)}, v.tag+":self-delegate-free")
+			total += v.second
+		}
+		sc.doExec(opDesc{Kind: "PUndelegate", ES: es, MS: ms, Amt: big.NewInt(total)}, v.tag+":proxy-undelegate-all")
+		if err := sc.doBlock(e.safeTime(e.now().Add(22*day)), v.tag); err != nil {
+			return err
+		}
+		for i, part := range v.parts {
+			w0 := sc.observe(e.ctx())
+			sc.doExec(opDesc{Kind: "WithdrawUnbonded", ES: es, MS: ms, Amt: big.NewInt(part)}, fmt.Sprintf("%s:withdraw-unbonded-%d", v.tag, i))
+			staleThenFresh(sc, w0.DL, fmt.Sprintf("%s:after-withdraw-%d", v.tag, i))
+		}
+	}
+
 	// (i) every schedule length (1, 100, 292, 293, 500, 1000 years, end at the largest representable
 	// time, one second, about a block) x start in the past / now / in the future, both kinds
 	// alternating: sends at the boundary amounts right away, after a day and after a year, and one
